@@ -63,6 +63,26 @@ Definition status_ok (m : method) (path : bytes) (status : Z) (tok : bytes) : bo
   else allowed_status status && status_rule status tok &&
        match token_class_status tok with Some s => s =? status | None => true end.
 
+(* the documented method of each endpoint (nsq HTTP API documentation): any other method on
+   that exact path must be answered 405 (OPTIONS aside) - in particular nothing but POST
+   may reach a state-changing endpoint *)
+Definition post_only : list bytes :=
+  map str ["/pub"; "/mpub"; "/topic/create"; "/topic/delete"; "/topic/empty"; "/topic/pause"; "/topic/unpause";
+           "/channel/create"; "/channel/delete"; "/channel/empty"; "/channel/pause"; "/channel/unpause";
+           "/debug/freememory"]%string.
+Definition get_only : list bytes := map str ["/ping"; "/info"; "/stats"]%string.
+Definition documented_methods (p : bytes) : option (list method) :=
+  if existsb (bytes_eqb p) post_only then Some [MPost]
+  else if existsb (bytes_eqb p) get_only then Some [MGet]
+  else if bytes_eqb p (str "/debug/setblockrate") then Some [MPut]
+  else if is_prefix (str "/config/") p && negb (is_nil (skipn 8 p)) && negb (has_slash (skipn 8 p)) then Some [MGet; MPut]
+  else None.
+Definition method_ok (m : method) (p : bytes) (status : Z) : bool :=
+  match documented_methods p with
+  | Some ms => existsb (method_eqb m) ms || method_eqb m MOptions || (status =? 405)
+  | None => true
+  end.
+
 (* a state that differs from [pre] at most by brand-new empty topics *)
 Definition only_new_empty_topics (pre post : state) : bool :=
   forallb (fun kt => otopic_eqb (lookup (fst kt) post) (Some (snd kt))) pre &&
@@ -126,7 +146,10 @@ Definition admin_monitor (r : request) (status : Z) (pre post : state) : bool :=
     | Some t =>
         let ch := match qget k_channel ps with Some c => c | None => [] end in
         match admin_expected (r_path r) t ch (lookup t pre) with
-        | Some exp => otopic_eqb (lookup t post) exp && others_unchanged t pre post
+        | Some exp => otopic_eqb (lookup t post) exp && others_unchanged t pre post &&
+                      (* nothing is ever created under an invalid name *)
+                      implb (bytes_eqb (r_path r) (str "/topic/create")) (is_valid_name t) &&
+                      implb (bytes_eqb (r_path r) (str "/channel/create")) (is_valid_name t && is_valid_name ch)
         | None => false
         end
     end
@@ -196,7 +219,7 @@ Definition judge (k : case) : N :=
                                   match resp with Pass => true | _ => state_eqb post_m post end) in
       let monitor :=
         status_ok (r_method r) (r_path r) status token &&
-        (if tls_gate c then (status =? 403) && state_eqb pre post else true) &&
+        (if tls_gate c then (status =? 403) && state_eqb pre post else method_ok (r_method r) (r_path r) status) &&
         (if pprof_path (r_path r) then true
          else if admin_path (r_path r) && method_eqb (r_method r) MPost then admin_monitor r status pre post
          else if is_4xx status || is_3xx status then only_new_empty_topics pre post && implb (admin_path (r_path r)) (state_eqb pre post)
@@ -212,7 +235,7 @@ Definition judge (k : case) : N :=
         | RMethodNotAllowed => (status =? 405) && (method_eqb m MHead || bytes_eqb token (str "METHOD_NOT_ALLOWED"))
         | RNotFound => (status =? 404) && (method_eqb m MHead || bytes_eqb token (str "NOT_FOUND"))
         end in
-      verdict agree (status_ok m path status token)
+      verdict agree (status_ok m path status token && method_ok m path status)
   | Pub c kind r status token hcreated hgot hdef tw tcode tcreated tgot tdef =>
       let '(resp, effs) := serve c [] r in
       let enq := enq_of effs in
@@ -233,8 +256,25 @@ Definition judge (k : case) : N :=
       let all_http := (hgot ++ map fst hdef)%list in
       let sizes_ok := forallb (fun b => (1 <=? blen b) && (blen b <=? max_msg c)) all_http in
       let same_enqueued := perm_eqb bytes_eqb hgot tgot && perm_eqb dmsg_eqb hdef tdef in
+      let body_len := blen (r_body r) in
+      let complete := negb (r_body_err r) in
+      let size_table :=
+        implb (complete && bytes_eqb token (str "BODY_TOO_BIG")) (max_body c <? body_len) &&
+        implb (complete && bytes_eqb token (str "MSG_EMPTY")) (body_len =? 0) &&
+        implb (complete && bytes_eqb token (str "MSG_TOO_BIG"))
+              (match kind with
+               | KPub => max_msg c <? body_len
+               | KMpubText => existsb (fun l => max_msg c <? blen l) (split_nl (r_body r))
+               | KMpubBinary => false
+               end) &&
+        implb (complete && http_ok)
+              (match kind with
+               | KPub => (1 <=? body_len) && (body_len <=? max_msg c)
+               | KMpubText => body_len <=? max_body c
+               | KMpubBinary => match r_framing r with Declared _ => body_len <=? max_body c | Chunked => true end
+               end) in
       let monitor :=
-        status_ok (r_method r) (r_path r) status token && sizes_ok &&
+        status_ok (r_method r) (r_path r) status token && method_ok (r_method r) (r_path r) status && sizes_ok && size_table &&
         (http_ok || (is_nil hgot && is_nil hdef)) &&
         match tw with
         | TwNone => true
